@@ -25,17 +25,68 @@ pub struct UdpScn {
     pub domain: bool,
     /// idle time (ms) before one more exchange on the same sockets (0 = none)
     pub idle_ms: u64,
+    /// one-way traffic (the target stays silent) for longer than the idle timeout, then the target answers
+    pub oneway: Option<OneWay>,
     pub seed: u64,
+}
+
+/// The local clients keep SENDING while nothing comes back: one datagram per (streaming client, target)
+/// every `gap_ms` for `ms` milliseconds, the target silent; then the target answers the last datagram of
+/// every streaming client (unsolicited, from its own socket to the source address it saw), then one more
+/// ordinary exchange of every client.  `sizes` of the scenario are ordinary exchanges BEFORE the stream.
+#[derive(Clone, Debug, PartialEq, Eq)]
+pub struct OneWay {
+    pub ms: u64,
+    pub gap_ms: u64,
+    /// payload sizes of the one-way datagrams (cycled); the last datagram is at least 16 bytes (it names itself)
+    pub sizes: Vec<usize>,
+    /// the first `streamers` clients send the stream, the others stay silent meanwhile
+    pub streamers: usize,
+    /// SOCKS5 only: every client sends through the association of client 0 (one relay socket, several sources)
+    pub shared: bool,
+    /// when the target answers, relative to the period of the client's prune task: the answer is sent at
+    /// the first moment after `ms` at which (time since the client started) mod UDP_PRUNE_TIMEOUT = at
+    pub at_ms: Option<u64>,
+}
+
+impl OneWay {
+    pub fn new(ms: u64) -> Self {
+        OneWay { ms, gap_ms: 2500, sizes: vec![24], streamers: usize::MAX, shared: false, at_ms: None }
+    }
+}
+
+fn list(v: &[usize]) -> String {
+    if v.is_empty() { "-".into() } else { v.iter().map(ToString::to_string).collect::<Vec<_>>().join(",") }
+}
+
+fn parse_list(v: &str, max: usize) -> Option<Vec<usize>> {
+    if v.is_empty() || v == "-" {
+        return Some(vec![]);
+    }
+    v.split(',').map(|x| x.parse().ok().filter(|n| *n <= max)).collect()
 }
 
 impl UdpScn {
     pub fn line(&self) -> String {
+        // the one-way part is printed only when present: lines of scenarios without it read as they always did
+        let oneway = match &self.oneway {
+            None => String::new(),
+            Some(o) => format!(
+                " oneway={} gap={} osizes={} streamers={} shared={}{}",
+                o.ms,
+                o.gap_ms,
+                list(&o.sizes),
+                o.streamers.min(self.clients),
+                u8::from(o.shared),
+                o.at_ms.map(|a| format!(" at={a}")).unwrap_or_default()
+            ),
+        };
         format!(
-            "udp via={} clients={} targets={} sizes={} replies={} domain={} idle={} seed={}",
+            "udp via={} clients={} targets={} sizes={} replies={} domain={} idle={}{oneway} seed={}",
             if self.socks { "socks5" } else { "udp-remote" },
             self.clients,
             self.targets.iter().map(ToString::to_string).collect::<Vec<_>>().join(","),
-            self.sizes.iter().map(ToString::to_string).collect::<Vec<_>>().join(","),
+            list(&self.sizes),
             self.replies,
             u8::from(self.domain),
             self.idle_ms,
@@ -47,20 +98,33 @@ impl UdpScn {
         if t.next()? != "udp" {
             return None;
         }
-        let mut s = UdpScn { socks: false, clients: 1, targets: vec![0], sizes: vec![8], replies: 1, domain: false, idle_ms: 0, seed: 0 };
+        let mut s = UdpScn { socks: false, clients: 1, targets: vec![0], sizes: vec![8], replies: 1, domain: false, idle_ms: 0, oneway: None, seed: 0 };
         for kv in t {
             let (k, v) = kv.split_once('=')?;
             match k {
                 "via" => s.socks = match v { "socks5" => true, "udp-remote" => false, _ => return None },
                 "clients" => s.clients = v.parse().ok().filter(|n| (1..=8).contains(n))?,
                 "targets" => s.targets = v.split(',').map(|x| x.parse().ok().filter(|n| *n < crate::world::UDP_TARGETS)).collect::<Option<Vec<_>>>()?,
-                "sizes" => s.sizes = v.split(',').map(|x| x.parse().ok().filter(|n| *n <= 60000)).collect::<Option<Vec<_>>>()?,
+                "sizes" => s.sizes = parse_list(v, 60000)?,
                 "replies" => s.replies = v.parse().ok().filter(|n| (1..=2).contains(n))?,
                 "domain" => s.domain = v == "1",
                 "idle" => s.idle_ms = v.parse().ok()?,
+                "oneway" => s.oneway.get_or_insert_with(|| OneWay::new(0)).ms = v.parse().ok().filter(|n| *n <= 120_000)?,
+                "gap" => s.oneway.get_or_insert_with(|| OneWay::new(0)).gap_ms = v.parse().ok().filter(|n| (50..=60_000).contains(n))?,
+                "osizes" => s.oneway.get_or_insert_with(|| OneWay::new(0)).sizes = parse_list(v, 60000).filter(|l| !l.is_empty())?,
+                "streamers" => s.oneway.get_or_insert_with(|| OneWay::new(0)).streamers = v.parse().ok().filter(|n| (1..=8).contains(n))?,
+                "shared" => s.oneway.get_or_insert_with(|| OneWay::new(0)).shared = v == "1",
+                "at" => s.oneway.get_or_insert_with(|| OneWay::new(0)).at_ms = Some(v.parse().ok().filter(|n| *n < 60_000)?),
                 "seed" => s.seed = v.parse().ok()?,
                 _ => return None,
             }
+        }
+        if s.oneway.as_ref().is_some_and(|o| o.ms == 0) {
+            s.oneway = None;
+        }
+        if let Some(o) = &mut s.oneway {
+            o.streamers = o.streamers.min(s.clients);
+            o.shared &= s.socks;
         }
         Some(s)
     }
@@ -212,6 +276,107 @@ fn mk_payload(nonce: u32, client: usize, target: usize, seq: u32, len: usize, rn
     p
 }
 
+/// Every client socket listens until `replies` replies to each datagram of `sent` are in (or the wait is
+/// over), then shortly for datagrams that should not come.  Each datagram received is judged: well-formed
+/// RFC 1928 header (SOCKS5), a reply some target sent, unmodified, at the client that originated the
+/// exchange, from the address that client sent to, once.  Returns the (client, target, reply index) that
+/// did not arrive.
+async fn collect(w: &World, sc: &UdpScn, clients: &[Client], sent: &[Sent], out: &mut UdpOutcome) -> Vec<(usize, usize, usize)> {
+    // collect: every client socket listens until all expected replies are in or the wait is over
+    let mut expected: HashMap<(usize, usize, usize), bool> = HashMap::new(); // (client, target, reply index) -> seen
+    for s in sent {
+        for i in 0..sc.replies {
+            expected.insert((s.client, s.target, i), false);
+        }
+    }
+    let deadline = Instant::now() + REPLY_WAIT;
+    let mut buf = vec![0u8; 65536];
+    let desc = |s: &Sent| format!("client {} ({}) -> target {} ({}) payload {} bytes", s.client, clients[s.client].addr, s.target, w.udp_targets[s.target].addr, s.payload.len());
+    let mut all_since: Option<Instant> = None;
+    loop {
+        let all = expected.values().all(|v| *v);
+        if all && all_since.is_none() {
+            all_since = Some(Instant::now());
+        }
+        // after everything arrived keep listening shortly for datagrams that should not come
+        let until = match all_since {
+            Some(t) => t + Duration::from_millis(40),
+            None => deadline,
+        };
+        let mut got_any = false;
+        for (ci, c) in clients.iter().enumerate() {
+            while let Ok((n, from)) = c.sock.try_recv_from(&mut buf) {
+                got_any = true;
+                let data = &buf[..n];
+                // where it came from: the address this client sent to
+                let sent_to: Vec<SocketAddr> = sent.iter().filter(|s| s.client == ci).map(|s| s.to).collect();
+                let body: &[u8] = if sc.socks {
+                    match parse_socks5_udp(data) {
+                        Ok((host, port, body)) => {
+                            // which address the header names (reported, see the final report)
+                            let is_remote = sent.iter().any(|s| s.client == ci && w.udp_targets[s.target].addr.port() == port
+                                && (host == w.udp_targets[s.target].addr.ip().to_string() || host == "localhost"));
+                            if is_remote {
+                                out.hdr_remote += 1;
+                            } else if host == c.addr.ip().to_string() && port == c.addr.port() {
+                                out.hdr_client += 1;
+                            } else {
+                                out.hdr_other += 1;
+                            }
+                            body
+                        }
+                        Err(e) => {
+                            out.bad.push(("socks5-reply-header-malformed".into(), format!("reply to client {ci} does not start with a well-formed RFC 1928 UDP header: {e}")));
+                            continue;
+                        }
+                    }
+                } else {
+                    data
+                };
+                if body.len() < 2 {
+                    out.bad.push(("reply-corrupt".into(), format!("client {ci} received a {}-byte datagram that no target sent", body.len())));
+                    continue;
+                }
+                let (tag, idx, echoed) = (body[0], body[1] as usize, &body[2..]);
+                let Some(t) = w.udp_targets.iter().position(|t| t.tag == tag) else {
+                    out.bad.push(("reply-corrupt".into(), format!("client {ci} received a datagram with unknown target tag {tag:02x}")));
+                    continue;
+                };
+                // whose exchange is it?
+                let owner = sent.iter().find(|s| s.target == t && s.payload == echoed);
+                match owner {
+                    None => out.bad.push(("reply-corrupt".into(), format!("client {ci} received a reply from target {t} whose payload ({} bytes) matches nothing sent in this round: payload modified", echoed.len()))),
+                    Some(s) if s.client != ci && !sent.iter().any(|s2| s2.client == ci && s2.target == t && s2.payload == echoed) => {
+                        out.bad.push(("reply-misrouted".into(), format!("the reply to [{}] was delivered to client {ci} ({})", desc(s), c.addr)));
+                    }
+                    Some(_) => {
+                        if !sent_to.contains(&from) {
+                            out.bad.push(("reply-from-wrong-address".into(), format!("client {ci} sent to {sent_to:?} but the reply came from {from}")));
+                        }
+                        match expected.get_mut(&(ci, t, idx)) {
+                            Some(seen) if !*seen => {
+                                *seen = true;
+                                out.replies_ok += 1;
+                            }
+                            Some(_) => out.bad.push(("reply-duplicated".into(), format!("client {ci} received reply {idx} of target {t} twice"))),
+                            None => out.bad.push(("reply-corrupt".into(), format!("client {ci} received reply index {idx} that the target did not send"))),
+                        }
+                    }
+                }
+            }
+        }
+        if Instant::now() >= until {
+            break;
+        }
+        if !got_any {
+            tokio::time::sleep(Duration::from_millis(3)).await;
+        }
+    }
+    let mut missing: Vec<(usize, usize, usize)> = expected.iter().filter(|(_, seen)| !**seen).map(|(k, _)| *k).collect();
+    missing.sort();
+    missing
+}
+
 /// One round: every (client, target) pair sends one datagram of `len` bytes at the same time (pairs
 /// one at a time when the payload is too short to identify itself), then all replies are collected.
 #[allow(clippy::too_many_arguments)]
@@ -247,96 +412,8 @@ async fn round(
             sent.push(Sent { client: *c, target: *t, payload, to });
         }
         out.exchanges += sent.len();
-        // collect: every client socket listens until all expected replies are in or the wait is over
-        let mut expected: HashMap<(usize, usize, usize), bool> = HashMap::new(); // (client, target, reply index) -> seen
-        for s in &sent {
-            for i in 0..sc.replies {
-                expected.insert((s.client, s.target, i), false);
-            }
-        }
-        let deadline = Instant::now() + REPLY_WAIT;
-        let mut buf = vec![0u8; 65536];
+        let missing = collect(w, sc, clients, &sent, out).await;
         let desc = |s: &Sent| format!("client {} ({}) -> target {} ({}) payload {} bytes", s.client, clients[s.client].addr, s.target, w.udp_targets[s.target].addr, s.payload.len());
-        let mut all_since: Option<Instant> = None;
-        loop {
-            let all = expected.values().all(|v| *v);
-            if all && all_since.is_none() {
-                all_since = Some(Instant::now());
-            }
-            // after everything arrived keep listening shortly for datagrams that should not come
-            let until = match all_since {
-                Some(t) => t + Duration::from_millis(40),
-                None => deadline,
-            };
-            let mut got_any = false;
-            for (ci, c) in clients.iter().enumerate() {
-                while let Ok((n, from)) = c.sock.try_recv_from(&mut buf) {
-                    got_any = true;
-                    let data = &buf[..n];
-                    // where it came from: the address this client sent to
-                    let sent_to: Vec<SocketAddr> = sent.iter().filter(|s| s.client == ci).map(|s| s.to).collect();
-                    let body: &[u8] = if sc.socks {
-                        match parse_socks5_udp(data) {
-                            Ok((host, port, body)) => {
-                                // which address the header names (reported, see the final report)
-                                let is_remote = sent.iter().any(|s| s.client == ci && w.udp_targets[s.target].addr.port() == port
-                                    && (host == w.udp_targets[s.target].addr.ip().to_string() || host == "localhost"));
-                                if is_remote {
-                                    out.hdr_remote += 1;
-                                } else if host == c.addr.ip().to_string() && port == c.addr.port() {
-                                    out.hdr_client += 1;
-                                } else {
-                                    out.hdr_other += 1;
-                                }
-                                body
-                            }
-                            Err(e) => {
-                                out.bad.push(("socks5-reply-header-malformed".into(), format!("reply to client {ci} does not start with a well-formed RFC 1928 UDP header: {e}")));
-                                continue;
-                            }
-                        }
-                    } else {
-                        data
-                    };
-                    if body.len() < 2 {
-                        out.bad.push(("reply-corrupt".into(), format!("client {ci} received a {}-byte datagram that no target sent", body.len())));
-                        continue;
-                    }
-                    let (tag, idx, echoed) = (body[0], body[1] as usize, &body[2..]);
-                    let Some(t) = w.udp_targets.iter().position(|t| t.tag == tag) else {
-                        out.bad.push(("reply-corrupt".into(), format!("client {ci} received a datagram with unknown target tag {tag:02x}")));
-                        continue;
-                    };
-                    // whose exchange is it?
-                    let owner = sent.iter().find(|s| s.target == t && s.payload == echoed);
-                    match owner {
-                        None => out.bad.push(("reply-corrupt".into(), format!("client {ci} received a reply from target {t} whose payload ({} bytes) matches nothing sent in this round: payload modified", echoed.len()))),
-                        Some(s) if s.client != ci && !sent.iter().any(|s2| s2.client == ci && s2.target == t && s2.payload == echoed) => {
-                            out.bad.push(("reply-misrouted".into(), format!("the reply to [{}] was delivered to client {ci} ({})", desc(s), c.addr)));
-                        }
-                        Some(_) => {
-                            if !sent_to.contains(&from) {
-                                out.bad.push(("reply-from-wrong-address".into(), format!("client {ci} sent to {sent_to:?} but the reply came from {from}")));
-                            }
-                            match expected.get_mut(&(ci, t, idx)) {
-                                Some(seen) if !*seen => {
-                                    *seen = true;
-                                    out.replies_ok += 1;
-                                }
-                                Some(_) => out.bad.push(("reply-duplicated".into(), format!("client {ci} received reply {idx} of target {t} twice"))),
-                                None => out.bad.push(("reply-corrupt".into(), format!("client {ci} received reply index {idx} that the target did not send"))),
-                            }
-                        }
-                    }
-                }
-            }
-            if Instant::now() >= until {
-                break;
-            }
-            if !got_any {
-                tokio::time::sleep(Duration::from_millis(3)).await;
-            }
-        }
         // what the targets saw
         for s in &sent {
             let log = w.udp_targets[s.target].log.lock().unwrap();
@@ -349,14 +426,170 @@ async fn round(
                 out.bad.push(("datagram-duplicated".into(), format!("[{}] reached the target {n} times", desc(s))));
             }
         }
-        for ((c, t, i), seen) in &expected {
-            if !*seen && !out.bad.iter().any(|(k, _)| k == "datagram-not-delivered") {
+        for (c, t, i) in &missing {
+            if !out.bad.iter().any(|(k, _)| k == "datagram-not-delivered") {
                 out.bad.push(("reply-not-delivered".into(), format!("reply {i} of target {t} to client {c} ({}) did not arrive within {} ms", clients[*c].addr, REPLY_WAIT.as_millis())));
             }
         }
         if !out.bad.is_empty() {
             return;
         }
+    }
+}
+
+/// One-way traffic that outlasts the idle timeout, then the target's answer (see `OneWay`).  The oracle is
+/// the property statement alone: every datagram reaches its target unmodified and once; nothing arrives at
+/// a client while no target has sent anything; every reply the target sends afterwards arrives at exactly
+/// the client whose datagram it answers, from the address that client sent to, (SOCKS5) behind a
+/// well-formed header, unmodified; and the next ordinary exchange of every client works.
+#[allow(clippy::too_many_arguments)]
+async fn one_way(w: &World, sc: &UdpScn, ow: &OneWay, clients: &[Client], seq: &mut u32, nonce: u32, rng: &mut pvhf::Rng, out: &mut UdpOutcome) {
+    let period = rusty_penguin_lib::config::UDP_PRUNE_TIMEOUT;
+    let streamers = ow.streamers.clamp(1, clients.len());
+    let gap = Duration::from_millis(ow.gap_ms);
+    for t in &w.udp_targets {
+        t.replies.store(0, Ordering::SeqCst); // the targets only listen
+    }
+    let marks: Vec<usize> = w.udp_targets.iter().map(|t| t.log.lock().unwrap().got.len()).collect();
+    let start = Instant::now();
+    let mut end = start + Duration::from_millis(ow.ms);
+    if let Some(at) = ow.at_ms {
+        // the answer is sent `at` ms into a period of the client's prune task (first tick when the client started)
+        let p = period.as_millis() as u64;
+        let phase = (end.duration_since(w.client_started).as_millis() as u64) % p;
+        end += Duration::from_millis((at % p + p - phase) % p);
+    }
+    let total_ms = end.duration_since(start).as_millis();
+    // ticks at start + k * gap while at least 200 ms are left before the answer
+    let mut ticks = 0u32;
+    while start + gap * (ticks + 1) + Duration::from_millis(200) <= end {
+        ticks += 1;
+    }
+    ticks += 1;
+    let mut all_sent: Vec<Sent> = vec![];
+    let mut last: Vec<Sent> = vec![];
+    let mut buf = vec![0u8; 65536];
+    let what = |n: usize| format!("{total_ms} ms of one-way traffic ({n} datagrams per client and target, one every {} ms, the target silent)", ow.gap_ms);
+    for k in 0..ticks {
+        tokio::time::sleep_until((start + gap * k).into()).await;
+        *seq += 1;
+        let is_last = k + 1 == ticks;
+        let len = ow.sizes[k as usize % ow.sizes.len()];
+        let len = if is_last { len.max(16) } else { len };
+        for c in 0..streamers {
+            for t in &sc.targets {
+                let payload = mk_payload(nonce, c, *t, *seq, len, rng);
+                let tgt = &w.udp_targets[*t];
+                let (to, wire) = if sc.socks {
+                    let mut d = socks5_udp_header(tgt.addr, sc.domain);
+                    d.extend_from_slice(&payload);
+                    (clients[c].relay.unwrap(), d)
+                } else {
+                    (SocketAddr::from(([127, 0, 0, 1], w.udp_remote_ports[*t])), payload.clone())
+                };
+                if let Err(e) = clients[c].sock.send_to(&wire, to).await {
+                    out.infra = Some(format!("send_to: {e}"));
+                    return;
+                }
+                let s = Sent { client: c, target: *t, payload, to };
+                if is_last {
+                    last.push(s.clone());
+                }
+                all_sent.push(s);
+            }
+        }
+        out.exchanges += streamers * sc.targets.len();
+    }
+    // every datagram of the stream is at its target, unmodified, once (the last ones may still be on their way)
+    let deadline = Instant::now() + REPLY_WAIT;
+    loop {
+        let complete = sc.targets.iter().all(|t| {
+            let log = w.udp_targets[*t].log.lock().unwrap();
+            log.got.len() - marks[*t] >= all_sent.iter().filter(|s| s.target == *t).count()
+        });
+        if complete || Instant::now() >= deadline {
+            break;
+        }
+        tokio::time::sleep(Duration::from_millis(5)).await;
+    }
+    for t in &sc.targets {
+        let log = w.udp_targets[*t].log.lock().unwrap();
+        let got = &log.got[marks[*t]..];
+        let mine: Vec<&Sent> = all_sent.iter().filter(|s| s.target == *t).collect();
+        let mut lost = 0;
+        let mut first_lost = None;
+        for (i, s) in mine.iter().enumerate() {
+            // count equal payloads on both sides (short payloads cannot name themselves)
+            let n_sent = mine.iter().filter(|x| x.payload == s.payload).count();
+            let n_got = got.iter().filter(|(p, _)| *p == s.payload).count();
+            if n_got < n_sent {
+                lost += 1;
+                first_lost.get_or_insert((i, s.payload.len(), s.client));
+            } else if n_got > n_sent {
+                out.bad.push(("datagram-duplicated".into(), format!("during {}: a {}-byte datagram of client {} reached target {t} {n_got} times, sent {n_sent} times", what(ticks as usize), s.payload.len(), s.client)));
+                break;
+            }
+        }
+        if let Some((i, len, c)) = first_lost {
+            out.bad.push(("datagram-not-delivered".into(), format!("during {}: {lost} of {} datagrams to target {t} did not reach it unmodified (first: number {i}, {len} bytes, of client {c}); the target received {} datagrams", what(ticks as usize), mine.len(), got.len())));
+        }
+        if let Some((p, src)) = got.iter().find(|(p, _)| !mine.iter().any(|s| s.payload == *p)) {
+            out.bad.push(("datagram-corrupt".into(), format!("during {}: target {t} received a {}-byte datagram from {src} that no client sent", what(ticks as usize), p.len())));
+        }
+    }
+    // nothing may have arrived at any client: no target has sent anything
+    for (ci, c) in clients.iter().enumerate() {
+        if let Ok((n, from)) = c.sock.try_recv_from(&mut buf) {
+            out.bad.push(("datagram-from-nowhere".into(), format!("during {}: client {ci} ({}) received a {n}-byte datagram from {from} although no target sent anything", what(ticks as usize), c.addr)));
+        }
+    }
+    if !out.bad.is_empty() {
+        return;
+    }
+    // the answer: each target answers the last datagram of every streaming client, to the source address it saw
+    tokio::time::sleep_until(end.into()).await;
+    let answered_after = Instant::now().duration_since(start).as_millis();
+    for s in &last {
+        let tgt = &w.udp_targets[s.target];
+        let src = tgt.log.lock().unwrap().got.iter().rev().find(|(p, _)| *p == s.payload).map(|(_, a)| *a);
+        let Some(src) = src else {
+            out.infra = Some("the last datagram of the stream is not in the target's log".into());
+            return;
+        };
+        for i in 0..sc.replies {
+            let mut d = Vec::with_capacity(s.payload.len() + 2);
+            d.push(tgt.tag);
+            d.push(i as u8);
+            d.extend_from_slice(&s.payload);
+            if let Err(e) = tgt.sock.send_to(&d, src).await {
+                out.infra = Some(format!("target send_to: {e}"));
+                return;
+            }
+        }
+    }
+    let before = out.bad.len();
+    let missing = collect(w, sc, clients, &last, out).await;
+    for (c, t, i) in &missing {
+        out.bad.push((
+            "reply-not-delivered".into(),
+            format!("reply {i} of target {t} to the last datagram of client {c} ({}), sent by the target {answered_after} ms after the client's first datagram, did not arrive within {} ms", clients[*c].addr, REPLY_WAIT.as_millis()),
+        ));
+    }
+    if out.bad.len() > before {
+        for b in &mut out.bad[before..] {
+            b.1 = format!("after {}: {}", what(ticks as usize), b.1);
+        }
+        return;
+    }
+    // one more ordinary exchange of every client (also those that were silent meanwhile)
+    for t in &w.udp_targets {
+        t.replies.store(sc.replies, Ordering::SeqCst);
+    }
+    *seq += 1;
+    round(w, sc, clients, 33, *seq, nonce, rng, out).await;
+    for b in &mut out.bad[before..] {
+        b.0 = format!("next-exchange:{}", b.0);
+        b.1 = format!("after {} and the target's answer: {}", what(ticks as usize), b.1);
     }
 }
 
@@ -377,7 +610,11 @@ pub async fn run_udp(w: Arc<World>, sc: UdpScn) -> UdpOutcome {
             }
         };
         let addr = sock.local_addr().unwrap();
-        let (ctl, relay) = if sc.socks {
+        let shared_relay = sc.oneway.as_ref().filter(|o| o.shared).and_then(|_| clients.first()).and_then(|c: &Client| c.relay);
+        let (ctl, relay) = if let Some(r) = shared_relay {
+            // a second local socket using the association of client 0
+            (None, Some(r))
+        } else if sc.socks {
             match associate(&w).await {
                 Ok((c, r)) => (Some(c), Some(r)),
                 Err(e) => {
@@ -396,6 +633,22 @@ pub async fn run_udp(w: Arc<World>, sc: UdpScn) -> UdpOutcome {
         seq += 1;
         round(&w, &sc, &clients, *len, seq, nonce, &mut rng, &mut out).await;
         if !out.bad.is_empty() || out.infra.is_some() {
+            return out;
+        }
+    }
+    if let Some(ow) = &sc.oneway {
+        let before = out.bad.len();
+        one_way(&w, &sc, ow, &clients, &mut seq, nonce, &mut rng, &mut out).await;
+        for t in &w.udp_targets {
+            t.replies.store(sc.replies, Ordering::SeqCst);
+        }
+        if out.bad.len() > before {
+            for b in &mut out.bad[before..] {
+                b.0 = format!("after-one-way:{}", b.0);
+            }
+            return out;
+        }
+        if out.infra.is_some() {
             return out;
         }
     }
